@@ -2,6 +2,7 @@ package e1
 
 import (
 	"fmt"
+	"github.com/hashicorp/hcl/v2/ext/tryfunc"
 	"math/big"
 
 	"github.com/hashicorp/hcl/v2"
@@ -186,6 +187,8 @@ func Functions() map[string]function.Function {
 		return function.Parameter{Name: name, Type: cty.String, AllowNull: allowNull}
 	}
 	return map[string]function.Function{
+		"try": tryfunc.TryFunc,
+		"can": tryfunc.CanFunc,
 		"id": function.New(&function.Spec{
 			Params: []function.Parameter{{Name: "v", Type: cty.DynamicPseudoType, AllowNull: true, AllowUnknown: true, AllowDynamicType: true, AllowMarked: true}},
 			Type:   func(args []cty.Value) (cty.Type, error) { return args[0].Type(), nil },
